@@ -59,6 +59,7 @@ def run(chk: Check) -> None:
     run_format_replacement_lookups(chk, ix)
     run_progress_reads_what_was_written(chk, ix)
     run_literal_strings_encodable(chk, ix)
+    run_loop_else_outside_loop(chk, ix)
 
     r1 = chk.rule("R20.1", "every loop that re-queues deferred work has a per-iteration counter compared with a constant bound that exits the loop; type-checker deferral is limited by pass_num < last_pass", floor=7)
     n_loops = 0
@@ -810,3 +811,30 @@ def run_literal_strings_encodable(chk: Check, ix) -> None:
         r.ok(key, wl.loc(branch))
     else:
         r.violation(key, wl.loc(branch), "the str branch hands the value to the strict UTF-8 writer and write_cache has no handler around `tree.write(...)`: `S: Final = \"\\ud800\"` ends in INTERNAL ERROR (UnicodeEncodeError) when the module's cache is written; with --no-fixed-format-cache (JSON) the same program is accepted")
+
+
+def run_loop_else_outside_loop(chk: Check, ix) -> None:
+    """R20.16: the else clause of a loop is analysed outside the loop."""
+    from ..cfg import CFG
+    r = chk.rule("R20.16", "semanal.SemanticAnalyzer counts loop nesting in self.loop_depth and reports `break` / `continue` outside a loop as a *blocking* error; the checker relies on it (binder.break_frames[-1] / continue_frames[-1] are indexed unguarded). A `for` / `while` statement's else clause is not part of the loop (`break` there is a syntax error in Python), so in every method that increments loop_depth the visit of `s.else_body` comes after the matching decrement on every path; the sibling methods for `for` and `while` agree", floor=2)
+    sa_ = ix.cls("mypy.semanal.SemanticAnalyzer")
+    n = 0
+    for name, f in sorted(sa_.methods.items()):
+        incs = [a for a in ast.walk(f.node) if isinstance(a, ast.AugAssign) and isinstance(a.op, ast.Add) and "loop_depth" in norm(a.target)]
+        if not incs:
+            continue
+        g = CFG(f.node)
+        decs = [nd for nd in g.nodes if nd.kind == "stmt" and isinstance(nd.stmt, ast.AugAssign) and isinstance(nd.stmt.op, ast.Sub) and "loop_depth" in norm(nd.stmt.target)]
+        inc_nodes = [nd for nd in g.nodes if nd.kind == "stmt" and isinstance(nd.stmt, ast.AugAssign) and isinstance(nd.stmt.op, ast.Add) and "loop_depth" in norm(nd.stmt.target)]
+        elses = [nd for nd in g.nodes if nd.kind == "stmt" and any(isinstance(c, ast.Call) and c.args and "else_body" in norm(c.args[0]) for c in ast.walk(nd.stmt))]
+        if not elses:
+            continue
+        n += 1
+        key = f"SemanticAnalyzer.{name}: the else body is visited after loop_depth has been restored"
+        ok = bool(decs) and all(g.must_pass(i, [e], decs, labels_excluded=("exc",)) for i in inc_nodes for e in elses)
+        if ok:
+            r.ok(key, f.loc(elses[0].stmt))
+        else:
+            r.violation(key, f.loc(elses[0].stmt), "the else body is analysed while loop_depth still counts the loop: `for x in y: pass\\nelse: break` raises no `\"break\" outside loop` blocker, type checking goes on and the checker indexes the empty break_frames list (INTERNAL ERROR; the daemon dies)")
+    if n < 2:
+        raise AnalysisError(f"SemanticAnalyzer: {n} loop statements with an else body found (expected for and while)")
